@@ -746,6 +746,12 @@ func runAll(c *Ctx, sh *shared, tmp string) {
 		go func() { defer rwg.Done(); runReleasePending(c, sh, filepath.Join(tmp, "release-pending")) }()
 		defer rwg.Wait()
 	}
+	if only == "" || strings.Contains("crowded-directory", only) {
+		var cwg sync.WaitGroup
+		cwg.Add(1)
+		go func() { defer cwg.Done(); runCrowded(c, sh, filepath.Join(tmp, "crowded")) }()
+		defer cwg.Wait()
+	}
 	// the file-system calls of one submission under strace, for a local and for a remote unit
 	for _, sc := range scenarios {
 		if (sc.Name == "local-finished" || sc.Name == "remote-unbound") && (only == "" || strings.Contains(sc.Name, only)) {
